@@ -2201,7 +2201,7 @@ INT_METHODS0 = ('ilog2', 'is_power_of_two', 'next_power_of_two', 'leading_zeros'
                 'reverse_bits', 'count_zeros')
 LEAN_RESERVED = {'at', 'from', 'in', 'end', 'do', 'then', 'else', 'fun', 'let', 'have', 'show', 'by',
                  'if', 'open', 'def', 'theorem', 'where', 'with', 'match', 'type', 'Type', 'mut', 'instance',
-                 'local', 'private', 'section', 'namespace', 'variable', 'universe', 'import', 'export', 'macro', 'syntax'}
+                 'local', 'private', 'section', 'namespace', 'variable', 'universe', 'import', 'export', 'macro', 'syntax', 'meta'}
 
 def count_leaves(t):
     if isinstance(t, tuple):
